@@ -234,6 +234,12 @@ def check(model, rep):
                    'than from [1., 0., 2.]' % (base_, tgt_, val_[:60], name_), line=node_.lineno)
     rep.count('R04.7 argument-typed local arrays in tm methods', n_buf)
     rep.ob('R04.7', tm.methods['__init__'], 'in-place stores into argument-typed buffers (all tm methods)', True, 'none stores a computed value')
+    # R04.8 "equivalent descriptions give the same transform" rests on the two sync functions: every constructor form ends in one of them
+    from .c03 import Checker as _TmChecker
+    from .common_ops import RuleAlias
+    _TmChecker(model, RuleAlias(rep, {'R03.2': 'R04.8'})).r032()
+    rep.rules['R04.8'] = ('the sync functions behind every constructor form: TAAtoTM defines TM only from TAA (exp of hat of TAA[3:6], translation TAA[0:3]); TMtoTAA '
+                          'defines TAA only from TM as the column [p; vee(log(R))] for EVERY rotation - no shortcut branch (rule function shared with C03 R03.2)')
     # R04.6 the new transform owns its payload
     rep.rule('R04.6', 'constructor forms give the new transform arrays of its own: TM / TAA are never (views of) the argument, so a matrix or transform '
                       'used to build one can be reused without changing it')
